@@ -7,4 +7,5 @@ INVARIANT FreshAfterExec
 INVARIANT DetectionOffKeepsHandle
 INVARIANT ReopenedEvenIfCloseFails
 INVARIANT ReopenedAsRequested
+INVARIANT NothingWithoutHandle
 CHECK_DEADLOCK FALSE
